@@ -229,7 +229,10 @@ def run_batch(batch):
     # anything the batch process itself produced outside a sandbox (should be nothing)
     if watch.dirty():
         report_violations(res, watch.new_reports(), batch, "batch process:")
-    res.count("cpu_s_x100", int((time.process_time() + _children_cpu()) * 100))
+    key = batch["gen"] if batch["gen"] != "multi" else batch["parts"][-1]["gen"]
+    cpu = int((time.process_time() + _children_cpu()) * 100)
+    res.count("cpu_s_x100", cpu)
+    res.count("cpu_s_x100_" + key.split("_")[0], cpu)
     res.count("wall_s_x100", int((time.time() - t0) * 100))
     return res.as_dict()
 
